@@ -16,7 +16,7 @@ func init() {
 	register(&Property{
 		Meta: report.Meta{
 			Property:    "C19",
-			Explanation: "Must-pass-through and who-may-call rules on the encrypted-metadata code: secretbox.Seal/Open are called only from EncryptWithKey/DecryptStringWithKey; Seal is reached only after validateKey succeeded and after io.ReadFull(crypto/rand.Reader, nonce[:]) succeeded on the very nonce array that is passed to Seal and prefixed to the output, with the key array filled by copy from the validated key and the message being the parameter; decryption validates the key, requires len >= 24 (= nonce length), opens data[24:] with nonce data[:24] and returns the plaintext only when Open reports ok; validateKey rejects nil, length != 32 and all-zero keys (decision table); AddEncrypted hands the plaintext to EncryptWithKey only and stores its checked result; the getters decrypt GetBytes(key); the four WithEncryptedMeta* options pass their own key/value/encryption-key parameters to AddEncrypted. Confidentiality and authentication themselves are the contract of NaCl secretbox. (R7) no returned bytes are views into memory given back to a sync.Pool. Every failing exit of GetEncryptedString / GetEncryptedBytes is selected by the non-nil error of GetBytes, DecryptStringWithKey or GetEncryptedBytes. (R2, R3) the key array handed to secretbox.Seal / Open has no element store and is passed to no call other than copy / Seal / Open (an assignment of the whole array is allowed).",
+			Explanation: "Must-pass-through and who-may-call rules on the encrypted-metadata code: secretbox.Seal/Open are called only from EncryptWithKey/DecryptStringWithKey; Seal is reached only after validateKey succeeded and after io.ReadFull(crypto/rand.Reader, nonce[:]) succeeded on the very nonce array that is passed to Seal and prefixed to the output, with the key array filled by copy from the validated key and the message being the parameter; decryption validates the key, requires len >= 24 (= nonce length), opens data[24:] with nonce data[:24] and returns the plaintext only when Open reports ok; validateKey rejects nil, length != 32 and all-zero keys (decision table); AddEncrypted hands the plaintext to EncryptWithKey only and stores its checked result; the getters decrypt GetBytes(key); the four WithEncryptedMeta* options pass their own key/value/encryption-key parameters to AddEncrypted. Confidentiality and authentication themselves are the contract of NaCl secretbox. (R7) no returned bytes are views into memory given back to a sync.Pool. Every failing exit of GetEncryptedString / GetEncryptedBytes is selected by the non-nil error of GetBytes, DecryptStringWithKey or GetEncryptedBytes. (R2, R3) the key array handed to secretbox.Seal / Open has no element store and is passed to no call other than copy / Seal / Open (an assignment of the whole array is allowed). (R7) in package pkg/meta/internal/crypto no append has (a slice without a capacity bound of) a parameter as its destination.",
 			Assumptions: []string{"NaCl secretbox provides confidentiality and authentication", "crypto/rand.Reader is a CSPRNG"},
 			Trusted:     []string{"golang.org/x/crypto/nacl/secretbox", "crypto/rand", "golang.org/x/tools/go/ssa v0.29.0"},
 			NotDecided:  []string{"cryptographic strength", "round-trip equality of the plaintext (runtime value)"},
@@ -38,6 +38,7 @@ func runC19(x *Ctx) {
 	x.C.Rule("C19.R7", "no decrypted / stored bytes are views into pooled memory; keys and nonces are not kept in package-level scratch", 3)
 	x.poolDiscipline("C19.R7", "pkg/meta", "pkg/meta/internal/crypto")
 	sharedScratch(x, "C19.R7")
+	keyMemoryUntouched(x)
 
 	// R1 who-may-call
 	whoCalls := func(prefix string, allowed map[string]bool, key string) {
